@@ -197,7 +197,28 @@ fn case_strategy(tier: Tier) -> BoxedStrategy<Case> {
             let writer = if mmap { Writer::Mmap } else { Writer::Batch };
             let norm = norm0 || mmap;
             let threads = threads;
-            (gen::records_in_container(p), gen::sched_strategy(mmap, 2 * max_records), io::stale_strategy(), prop_oneof![8 => Just(None), 1 => gen::align_strategy(131072).prop_map(Some), 1 => gen::align_strategy(2 << 20).prop_map(Some)]).prop_map(move |((recs, cont), sched, stale, align)| {
+            // records whose number of windows is a multiple of 128 or 640: frequencies that are exact ties at the
+            // seventh decimal (c/128 exactly representable, c/640 not), where two formatters may round apart
+            let ties = prop_oneof![
+                5 => Just(Vec::new()),
+                1 => proptest::collection::vec((prop::sample::select(vec![128usize, 640, 640, 3200]), 1usize..=3, any::<u64>()), 1..=2),
+            ];
+            (gen::records_in_container(p), gen::sched_strategy(mmap, 2 * max_records), io::stale_strategy(), prop_oneof![8 => Just(None), 1 => gen::align_strategy(131072).prop_map(Some), 1 => gen::align_strategy(2 << 20).prop_map(Some)], ties, prop_oneof![10 => Just(None), 1 => any::<u16>().prop_map(Some)]).prop_map(move |((mut recs, cont), sched, stale, align, ties, noname)| {
+                for (i, (base, j, seed)) in ties.into_iter().enumerate() {
+                    let len = base * j + k - 1;
+                    let mut s = seed;
+                    let seq: Vec<u8> = (0..len).map(|_| { s = crate::util::splitmix(s); b"ACGT"[(s >> 40) as usize % 4] }).collect();
+                    let at = (seed as usize) % (recs.len() + 1);
+                    recs.insert(at, Rec { id: format!("tie{}", i), desc: None, seq: crate::util::Bytes(seq) });
+                }
+                // a record without a name ("@" / ">" alone or followed by a description): a record all the same
+                if let (Some(x), false) = (noname, recs.is_empty()) {
+                    // (a record with neither a name nor bases is the reader library's end-of-input marker: not generated)
+                    let i = crate::util::idx16(x, recs.len());
+                    if !recs[i].seq.0.is_empty() {
+                        recs[i].id = String::new();
+                    }
+                }
                 // the controlled scheduler is used with up to 6 workers
                 let threads = if matches!(sched, Sched::Controlled(_)) { ((threads - 1) % 6) + 1 } else { threads };
                 // an aligned record start is meaningful for the plain single-line text
